@@ -479,3 +479,70 @@ theorem Bitmap.step_mirror_eq (dbg : Bool) (b : Bitmap) (h : b.WF) (op : Op32) :
   · simp only [Bitmap.stepMirror, Bitmap.step, Bitmap.removeBiggest_mirror_eq b h.storeInv]
 
 end Roaring
+
+namespace Roaring
+namespace Bitmap
+
+/-- **cmp.rs `Pairs`**: `Bitmap.pairs` is the list of items that repeated `Pairs::next` yields -/
+theorem pairs_unfold (l r : List Container) :
+    pairs l r = match pairsNext (l, r) with
+      | none => []
+      | some (p, st) => p :: pairs st.1 st.2 := by
+  cases l with
+  | nil =>
+    cases r with
+    | nil => simp [pairs, pairsNext]
+    | cons y ys => simp [pairs, pairsNext]
+  | cons x xs =>
+    cases r with
+    | nil => simp [pairs, pairsNext]
+    | cons y ys =>
+      rw [pairs]
+      unfold pairsNext
+      by_cases h1 : x.key = y.key
+      · simp [h1]
+      · by_cases h2 : x.key < y.key
+        · simp [h1, h2]
+        · simp [h1, h2]
+
+/-! ## inherent.rs `full()` -/
+
+private theorem popSum_replicate (w : Nat) : ∀ n, BStore.popSum (List.replicate n w) = n * popcount w := by
+  intro n
+  induction n with
+  | zero => simp [BIter.popSum_nil]
+  | succ n ih => rw [List.replicate_succ, BIter.popSum_cons, ih, Nat.succ_mul]; omega
+
+theorem storeFull_wf : Store.full.WF := by
+  refine ⟨⟨List.length_replicate, ?_, ?_⟩, by decide⟩
+  · intro w hw
+    simp only [BStore.full, List.mem_replicate] at hw
+    rw [hw.2]; decide
+  · show 65536 = BStore.popSum (List.replicate 1024 wMax)
+    rw [popSum_replicate, popcount_eq_length_bitPos wMax (by decide)]
+    decide
+
+/-- `full()` is well-formed (a producer row of C04) … -/
+theorem full_wf : full.WF := by
+  refine ⟨?_, ?_⟩
+  · unfold full
+    rw [List.map_map]
+    have : (Container.key ∘ Container.full) = id := by funext k; rfl
+    rw [this, List.map_id]
+    exact List.pairwise_lt_range
+  · intro c hc
+    unfold full at hc
+    obtain ⟨k, hk, rfl⟩ := List.mem_map.mp hc
+    exact ⟨List.mem_range.mp hk, storeFull_wf⟩
+
+/-- … and `is_full()` answers `true` on it -/
+theorem full_isFull : isFull full = true := by
+  unfold isFull full
+  simp only [List.length_map, List.length_range, beq_self_eq_true, Bool.true_and, List.all_map]
+  rw [List.all_eq_true]
+  intro k _
+  show (Container.full k).isFull = true
+  rfl
+
+end Bitmap
+end Roaring
